@@ -352,6 +352,9 @@ func runC01(w *World, r *Report) {
 	r.Rule("C01.nested-limit-own", "the run-time step limit of a call (an undesignated Option without component options) is not handed on to nested graph nodes: a graph used as a node keeps the limit it was compiled with, like the same graph compiled alone", 2)
 	undesignatedCarrierCheck(w, r, "C01.nested-limit-own", "WithRuntimeMaxSteps of the outer call replaces the nested graph's own step limit (a nested loop compiled with 3 steps runs 40; a nested graph needing 8 of its 11 steps fails under an outer limit of 5)")
 
+	r.Rule("C01.nested-options-own", "a graph used as a node is compiled with the options it was declared with: nothing but the option functions (and constructors / per-compile copies) writes a graphCompileOptions field — a parent's Compile does not hand its trigger mode, step limit or name down into a node's stored options (shared with C20)", 6)
+	compileOptionsOwned(w, r, "C01.nested-options-own")
+
 	r.Rule("C01.visits-all", "resolveCompletedTasks / calculateBranch / createTasks: the loops over completed tasks, their successors and branch targets are left only when exhausted or with an error (shared with C03)", 4)
 	ruleLoopsTotal(w, r, "C01.visits-all", []*ssa.Function{
 		w.Fn("compose", "runner.resolveCompletedTasks"), w.Fn("compose", "runner.calculateBranch"), w.Fn("compose", "runner.createTasks"), w.Fn("compose", "runner.calculateNextTasks"),
